@@ -136,6 +136,19 @@ def run_all(seed, tier, configs):
                         a, b = diff[0]
                         res["problems"].append({"kind": "crash", "config": dict(cfg, big=True),
                                                 "detail": "C API result differs from Rust linkage on a matrix of thousands of observations (%d of 42 calls): Rust `%s` vs C API `%s`; replay: %s --big %d and %s capibig --seed %d" % (len(diff), a, b, exe, seed, kvh, seed)})
+        if cfg["header"] == "capi" and (cfg["threads"] > 1 or not cfg["asan"]):
+            # one handle read for the first time by several threads at once, then freed once
+            t = max(cfg["threads"], 8)
+            rounds = 400 if tier == "thorough" else 120
+            env = dict(kv.ENV)
+            if cfg["asan"]:
+                env["ASAN_OPTIONS"] = "detect_leaks=1:abort_on_error=0:exitcode=23"
+            rc, out = kv.sh("timeout 900 %s --shared %d %d" % (exe, rounds, t), cwd=kv.BUILD, env=env, timeout=1000)
+            res["evaluations"] += rounds * t
+            res["runs"].append(dict(cfg, shared=rounds, readers=t, rc=rc))
+            if rc != 0:
+                res["ok"] = False
+                res["problems"].append({"kind": "crash", "config": dict(cfg, shared=rounds, readers=t), "detail": "driver --shared exit %d: %s" % (rc, out[-1500:])})
         if not cfg["asan"] and cfg["threads"] == 1 and cfg["header"] == "capi":
             # many dendrograms live at once, freed exactly once in three orders: the allocator's
             # bytes in use must come back (glibc mallinfo2)
